@@ -899,7 +899,7 @@ func Spec() *core.Spec {
 		Rule: "part 1: RSA keys built from fresh 128/256/512-bit primes (searched for private exponents whose encodings start with 0x00/>=0x80 or have leading zero bytes), ECDSA keys on P-224/256/384/521 with crafted and random scalars, " +
 			"symmetric keys and secrets of every length 0..64, registered through every key format the client builders offer at versions 1.0..1.4, wrapped into a Get response, sent through TTLV/XML/JSON and extracted with every accessor (mathematical equality); " +
 			"part 2: 19 object kinds/formats with every subset (<= 12 removable nodes) or random subsets of their optional nodes removed, wrapped keys and key-format mismatches; every accessor is called on whatever still decodes. " +
-			"transport buffer overwritten after decoding; 3-8 objects held across later messages of one stream; a builder refusing a named key is a violation; distinct = distinct (key, format, version, encoding) transports and distinct degraded tree shapes",
+			"transport buffer overwritten after decoding; 3-8 objects held across later messages of one stream; a builder refusing a named key is a violation; every second transparent RSA registration with a key never Precompute()d; distinct = distinct (key, format, version, encoding) transports and distinct degraded tree shapes",
 		Assumptions: []string{"keys smaller than production size exercise the same code paths; a few 1024-bit moduli are included", "mathematical equality = Equal() of crypto/rsa and crypto/ecdsa, byte equality for symmetric keys and secrets"},
 		Required: []string{"transports", "accessor_calls", "held_objects", "rsa.without-precomputed-crt", "degraded_decodable", "degraded_accessor_calls", "rsa.d-leading-zero-byte", "rsa.d-starts-hi", "rsa.d-starts-lo", "ec.P-224", "ec.P-256", "ec.P-384", "ec.P-521",
 			"ec.d-leading-zero-byte", "ec.d-full-width.P-521", "ec.d-full-width.P-256", fmt.Sprintf("ec.transparent.format-%d", kmip.KeyFormatTypeTransparentECDSAPrivateKey), fmt.Sprintf("ec.transparent.format-%d", kmip.KeyFormatTypeTransparentECPrivateKey)},
